@@ -76,7 +76,7 @@ def password(rng, classes=('ascii',), allow_ew=False, max_parts=4):
     pw = ''.join(out)
     return pw if pw.strip() != '' or pw else 'x'
 
-ENCODINGS = {'utf-8': ('ascii', 'cyr', 'grk', 'lat1', 'nonbmp', 'caseless'), 'latin-1': ('ascii', 'lat1'), 'cp1251': ('ascii', 'cyr'),
+ENCODINGS = {'utf-8-sig': ('ascii', 'cyr', 'grk', 'lat1', 'nonbmp', 'caseless'), 'utf-8': ('ascii', 'cyr', 'grk', 'lat1', 'nonbmp', 'caseless'), 'latin-1': ('ascii', 'lat1'), 'cp1251': ('ascii', 'cyr'),
              'cp1252': ('ascii', 'lat1'), 'ascii': ('ascii',), 'iso-8859-7': ('ascii', 'grk')}
 
 def encodable(s, enc):
@@ -129,6 +129,9 @@ def gen_list(rng, encoding='utf-8', n_distinct=None, allow_ew=True, boost_words=
     return items
 
 def render_plain(items, encoding, eol=b'\n'):
+    if encoding.lower().replace('_', '-') in ('utf-8-sig',):
+        # a codec with a byte-order mark: encode the text as a whole (one BOM at the start of the file)
+        return ''.join((pw + eol.decode('ascii')) * k for pw, k in items).encode(encoding)
     out = b''
     for pw, k in items:
         out += (pw.encode(encoding) + eol) * k
@@ -136,6 +139,8 @@ def render_plain(items, encoding, eol=b'\n'):
 
 def render_prefix(items, encoding, eol=b'\n'):
     """The same list as `sort | uniq -c` writes it (for --prefixcount): right-aligned count, one blank, the password."""
+    if encoding.lower().replace('_', '-') in ('utf-8-sig',):
+        return ''.join('%7d %s%s' % (k, pw, eol.decode('ascii')) for pw, k in items).encode(encoding)
     out = b''
     for pw, k in items:
         out += (b'%7d ' % k) + pw.encode(encoding) + eol
